@@ -451,6 +451,43 @@ func genC06(e *emitter, r *rng, tier string) {
 		}
 		b.emit(e, "C06.len"+fmt.Sprint(ns.length))
 	}
+	// "independent of i": the same short operations far out — iterators, traversals, formatting of
+	// views, printing and searching that START at a deep position on an infinite counting source
+	deep := 24
+	if tier == "thorough" {
+		deep = 240
+	}
+	for i := 0; i < deep; i++ {
+		start := r.pick([]int{8000, 12000, 15900, 16000, 23999, 40000})
+		ns := genNumber(-1, r.rangeInt(-2, 4), false)
+		b := newScriptBuilder(r, ns)
+		b.add("cons")
+		b.add("ws:0:%d", start)
+		b.handles = append(b.handles, hinfo{start, maxInt})
+		b.add("cons")
+		for j := 0; j < 2+r.intn(3); j++ {
+			switch r.intn(7) {
+			case 0:
+				b.add("fwd:1:%d", r.pick([]int{1, 50, 100, 101, 250}))
+			case 1:
+				b.add("fwd2:1:%d", r.pick([]int{1, 50, 100, 101, 250}))
+			case 2:
+				b.add("itat:0:%d:%d", start+r.pick([]int{0, 1, 99, 100}), r.pick([]int{1, 100, 101, 250}))
+			case 3:
+				b.add("at:0:%d", start+r.pick([]int{0, 99, 100, 150}))
+			case 4:
+				b.add("pr:0:r%d~%d:%s", start+r.intn(120), start+120+r.intn(200), r.pickS([]string{"-", "R10.C5", "R0.C0"}))
+			case 5:
+				b.add("ffn:1:%s:1", patString([]int{genDigit(start + 130), genDigit(start + 131), genDigit(start + 132), genDigit(start + 133), genDigit(start + 134), genDigit(start + 135), genDigit(start + 136)}))
+			default:
+				b.add("mk:1:fwd")
+				b.iters++
+				b.add("nx:%d:%d", b.iters-1, r.pick([]int{1, 100, 101, 220}))
+			}
+			b.add("cons")
+		}
+		b.emit(e, "C06.deepstart")
+	}
 }
 
 // ---------------------------------------------------------------- C13 constructors
